@@ -283,7 +283,7 @@ class Main(Suite):
     go_cmd = "c38"
     coq_imports = "From GoGit Require Import Model.RefSpec Model.RevList Model.PushRules."
     quick_n = 360
-    thorough_n = 5000
+    thorough_n = 2500
     coq_chunk = 120
 
     BUCKETS = [(4, "random"), (2, "lease"), (2, "prune"), (1, "overlap"), (1, "hashsrc"), (1, "invalid"),
@@ -424,7 +424,7 @@ class Wire(Suite):
     name = "wire"
     go_cmd = "c36"
     quick_n = 3
-    thorough_n = 60
+    thorough_n = 30
 
     def gen(self, rng, n, tier):
         return [{"op": "noop", "bucket": pick_weighted(rng, [(3, "ff"), (2, "diverged"), (1, "delete"), (1, "tags"), (1, "shallow")]),
